@@ -69,3 +69,27 @@ Print Assumptions C01_empty_loop.
 Theorem C01_reorder_stmts : forall s1 s2, commute s1 s2 -> refines [s1; s2] [s2; s1].
 Proof. intros s1 s2 H. exact H. Qed.
 Print Assumptions C01_reorder_stmts.
+
+From Core Require Import PartialEval PartialEvalSound Rules.
+
+(** branch removal (simplify, eliminate_dead_code): the taken branch spliced into the enclosing block *)
+Theorem C01_if_true : forall c a b st st',
+  forallb nodecl a = true -> eval st c = Ok (VBool true) ->
+  exec_list [If c a b] st = Ok st' -> exec_list a st = Ok st'.
+Proof. exact rule_if_true. Qed.
+Print Assumptions C01_if_true.
+
+Theorem C01_if_false : forall c a b st st',
+  forallb nodecl b = true -> eval st c = Ok (VBool false) ->
+  exec_list [If c a b] st = Ok st' -> exec_list b st = Ok st'.
+Proof. exact rule_if_false. Qed.
+Print Assumptions C01_if_false.
+
+(** unroll_loop: a loop with literal bounds equals the concatenation of its body with the iterator
+    replaced by each value in turn (bodies that declare nothing at top level; the iterator is a fresh Sym) *)
+Theorem C01_unroll_loop : forall i body lo n par st st',
+  forallb (nobind i) body = true -> forallb nodecl body = true -> fresh_in i (s_env st) ->
+  exec_list [For i (Int lo) (Int (lo + Z.of_nat n)) body par] st = Ok st' ->
+  exec_list (unrolled i body lo n) st = Ok st'.
+Proof. exact rule_unroll_loop. Qed.
+Print Assumptions C01_unroll_loop.
